@@ -296,7 +296,17 @@ func shKindMatches(fs j5schema.FieldSchema, fd protoreflect.FieldDescriptor, ele
 			return false, "oneof ref not linked"
 		}
 		if st.Ref.FullName() != nameOf(fd.Message()) {
-			return false, "oneof ref names " + st.Ref.FullName() + ", field is " + nameOf(fd.Message())
+			// an exposed oneof of the message the path leads to (its own path is empty; a flattened parent prefixes its path)
+			exposed := false
+			oo := fd.Message().Oneofs()
+			for k := 0; k < oo.Len(); k++ {
+				if !oo.Get(k).IsSynthetic() && st.Ref.FullName() == nameOf(fd.Message())+"_"+string(oo.Get(k).Name()) {
+					exposed = true
+				}
+			}
+			if !exposed {
+				return false, "oneof ref names " + st.Ref.FullName() + ", field is " + nameOf(fd.Message())
+			}
 		}
 		if _, ok := st.Ref.To.(*j5schema.OneofSchema); !ok {
 			return false, fmt.Sprintf("oneof ref links to %T", st.Ref.To)
@@ -370,7 +380,7 @@ type shChecker struct {
 	stage    string
 	tainted  bool // the schema came out of a cache in which an earlier build had failed
 	clientOK map[string]bool
-	dup      map[string]bool // schemas with a duplicated property name
+	dup      map[string]bool // schema name, and schema name + "/" + JSON name, of duplicated property names
 }
 
 func (ck *shChecker) add(class, cause, format string, a ...any) {
@@ -447,6 +457,7 @@ func (ck *shChecker) checkProps(owner string, md protoreflect.MessageDescriptor,
 			}
 			if ck.dup != nil {
 				ck.dup[owner] = true
+				ck.dup[owner+"/"+n] = true
 			}
 			ck.add("C18|names|duplicate", how, "%s: JSON name %q appears %d times in the %s property list", owner, n, k, listKind)
 		}
@@ -669,6 +680,35 @@ func shPopulateField(m protoreflect.Message, f protoreflect.FieldDescriptor, dep
 
 // ---- evaluation ------------------------------------------------------------------------------------------
 
+// shPropNameFor is the JSON name under which a field of the message appears in the object (the exposed oneof's name for its members).
+func shPropNameFor(rs j5schema.RootSchema, fd protoreflect.FieldDescriptor) string {
+	var props []*j5schema.ObjectProperty
+	switch st := rs.(type) {
+	case *j5schema.ObjectSchema:
+		props = st.Properties
+	case *j5schema.OneofSchema:
+		props = st.Properties
+	}
+	for _, p := range props {
+		if p == nil {
+			continue
+		}
+		if len(p.ProtoField) == 1 && p.ProtoField[0] == fd.Number() {
+			return p.JSONName
+		}
+		if of, ok := p.Schema.(*j5schema.OneofField); ok && len(p.ProtoField) == 0 && of.Ref != nil && of.Ref.To != nil {
+			if os, ok := of.Ref.To.(*j5schema.OneofSchema); ok {
+				for _, q := range os.Properties {
+					if q != nil && len(q.ProtoField) == 1 && q.ProtoField[0] == fd.Number() {
+						return p.JSONName
+					}
+				}
+			}
+		}
+	}
+	return string(fd.JSONName())
+}
+
 func shPropFor(rs j5schema.RootSchema, fd protoreflect.FieldDescriptor) j5schema.FieldSchema {
 	var props []*j5schema.ObjectProperty
 	switch st := rs.(type) {
@@ -864,7 +904,7 @@ func shEval(c *shCase, b *shBuilt) *shEvalResult {
 			site, msg := shGuard(func() { js, err = cc.ProtoToJSON(m) })
 			if suffix != "" {
 				cause, needMin = "", false // the cause is the earlier failed build, whatever made it fail
-			} else if dup[shSchemaName(md)] {
+			} else if fd != nil && dup[shSchemaName(md)+"/"+shPropNameFor(roots[i], fd)] {
 				// two properties share a JSON name: whatever the codec does with the second one follows from that
 				cause, needMin = "duplicate-names", false
 			}
@@ -930,6 +970,17 @@ func shEval(c *shCase, b *shBuilt) *shEvalResult {
 		allOK := true
 		for j := 0; j < md.Fields().Len(); j++ {
 			fd := md.Fields().Get(j)
+			if !fresh {
+				// the schema exists only because an earlier failed build left it behind: what matters here is following its
+				// references to user messages (dead placeholders); the other fields are judged where their type builds
+				vf := fd
+				if fd.IsMap() {
+					vf = fd.MapValue()
+				}
+				if vf.Kind() != protoreflect.MessageKind || vf.Message().ParentFile().Path() != b.File.Path() {
+					continue
+				}
+			}
 			m := dynamicpb.NewMessage(md)
 			shPopulateField(m, fd, -1)
 			if !rt("populated", m, fd) {
@@ -1465,7 +1516,7 @@ func shMinCrash(c *shCase, out *Out) *Out {
 			if len(s) > 1500 {
 				s = s[len(s)-1500:]
 			}
-			return true, kind, stage + "|" + site, s
+			return true, kind, site + "|" + stage, s
 		case <-time.After(20 * time.Second):
 			_ = cmd.Process.Kill()
 			<-done
@@ -1475,7 +1526,7 @@ func shMinCrash(c *shCase, out *Out) *Out {
 					stage = strings.TrimPrefix(l, "SHAPES-STAGE ")
 				}
 			}
-			return true, "timeout", stage + "|no-return", ""
+			return true, "timeout", "no-return|" + stage, ""
 		}
 	}
 	crashed, kind, site, head := run(c)
